@@ -32,6 +32,13 @@ def plan(tier, seed):
     n = 500 if tier == 'quick' else 5000
     shards = [{'name': 'pl_%d' % i, 'kind': 'pl', 'n': n, 'seed': seed * 1000 + 120 + i}
               for i in range(13)]
+    ths = gen.threshold_pool('basic')
+    combos = [(m, t) for m in ('JACCARD', 'COSINE', 'DICE') for t in ths]
+    random.Random(seed * 1000 + 119).shuffle(combos)
+    if tier == 'quick':
+        combos = combos[:120]
+    shards.append({'name': 'tight_a', 'kind': 'tight', 'N': 16 if tier == 'quick' else 30, 'combos': combos[0::2]})
+    shards.append({'name': 'tight_b', 'kind': 'tight', 'N': 16 if tier == 'quick' else 30, 'combos': combos[1::2]})
     shards.append({'name': 'person', 'kind': 'person', 'seed': seed * 1000 + 135,
                    'n': 40 if tier == 'quick' else 300})
     return shards
@@ -205,8 +212,31 @@ def make_case(rng, person=None):
     return call, fspec, n1, n2, measure
 
 
+def tight_case(case, rec, ssj):
+    """Tight tables (every size pair <= N with the least qualifying overlap, shared tokens last):
+    the join must agree with every filter+matcher pipeline exactly on the threshold."""
+    m, t, N = case['measure'], case['threshold'], case['N']
+    sizes = [(a, b) for a in range(1, N + 1) for b in range(1, N + 1)]
+    L, R, groups = gen.tight_tables(m, t, sizes)
+    call = {'api': T.MEASURE_JOIN[m], 'ltable': L, 'rtable': R, 'l_key': 'id', 'r_key': 'id',
+            'l_attr': 's', 'r_attr': 's', 'tok': {'kind': 'ws', 'return_set': True}, 'threshold': t,
+            'comp_op': case.get('comp_op', '>='), 'allow_empty': True, 'allow_missing': False,
+            'out_sim_score': True, 'n_jobs': 1}
+    nt = 0
+    for kind in ('PrefixFilter', 'PositionFilter', 'OverlapFilter'):
+        fspec = {'kind': kind, 'measure': m, 'threshold': t, 'overlap_size': 1, 'comp_op': '>='}
+        res = run_pipeline(ssj, rec, case, call, fspec, 1, 1, m)
+        if res is None:
+            continue
+        nt = max(nt, compare(rec, case, call, m, res[0], res[1], fspec))
+    rec.count('pairs_compared', nt)
+    return {'nontrivial': nt, 'call': call, 'fspec': fspec}
+
+
 def run_case(case, rec, ssj=None, person=None):
     ssj = ssj or env.load()
+    if case['gen'] == 'tight':
+        return tight_case(case, rec, ssj)
     rng = random.Random(case['seed'])
     if case.get('person') and person is None:
         person = load_person(ssj)
@@ -238,6 +268,15 @@ def run_shard(shard, rec):
     reach = monitors.Reach()
     reach.start()
     person = load_person(ssj) if shard['kind'] == 'person' else None
+    if shard['kind'] == 'tight':
+        for ci, (m, t) in enumerate(shard['combos']):
+            case = {'gen': 'tight', 'measure': m, 'threshold': t, 'N': shard['N'],
+                    'comp_op': '>=' if ci % 4 else '='}
+            st = tight_case(case, rec, ssj)
+            rec.case(sig=('tight', m, t, shard['N'], case['comp_op']), nontrivial=st['nontrivial'] > 0, n=4)
+            rec.add('api_filter', (st['call']['api'], 'tight'))
+        rec.sample({'workload': 'tight tables', 'N': shard['N'], 'combos': shard['combos'][:3]}, limit=1)
+        shard = dict(shard, n=0)
     for i in range(shard['n']):
         case = {'gen': 'pl', 'seed': shard['seed'] * 100000 + i, 'person': shard['kind'] == 'person'}
         st = run_case(case, rec, ssj, person)
